@@ -108,33 +108,36 @@ def pax_record(key, val):
 
 def gen_paxbody_cases(rng, tier):
     """Extended-header bodies for the reader's record loop: well-formed sequences of records with arbitrary
-    value bytes (newlines, '=', NUL), keys up to the 512-byte look-ahead, unknown keys, and malformed variants."""
-    reps = 2 if tier == 'quick' else 30
+    value bytes (newlines, '=', NUL), keys up to the 512-byte look-ahead, unknown keys, and every malformed
+    variant of each body (cut short, length off by one, newline replaced, first '=' removed)."""
+    reps = 4 if tier == 'quick' else 40
     for r in range(reps):
         ops = []
-        for _ in range(12):
+        for _ in range(8):
             recs = []
             for k in range(rng.choice([0, 1, 2, 5])):
-                nl = rng.choice([1, 2, 10, 127, 128, 129, 200, 480, 486, 487, 488, 495])
-                name = bytes(rng.choice(b'abcXYZ.-_%/ ') for _ in range(nl))
-                key = (b'SCHILY.xattr.' + name) if rng.random() < 0.8 else b'verif.' + name[:40]
+                if rng.random() < 0.75:
+                    name = bytes(rng.choice(b'abcXYZ.-_%/ ') for _ in range(rng.choice([1, 2, 10, 60, 127, 128, 128, 129 if rng.random() < 0.2 else 100])))
+                    key = b'SCHILY.xattr.' + name
+                else:       # a key the reader does not know, up to what the 512-byte look-ahead holds
+                    key = b'verif.' + bytes(rng.choice(b'abcXYZ.-_%/ ') for _ in range(rng.choice([1, 40, 200, 480, 487, 495])))
                 vl = rng.choice([0, 1, 2, 8, 80, 85, 86, 87, 95, 500, 985, 990, 3000])
                 val = bytes(rng.choice([10, 61, 0, 32, 48, 255, 97]) if rng.random() < 0.5 else rng.randrange(256) for _ in range(vl))
                 recs.append(pax_record(key, val))
             body = b''.join(recs)
             ops.append(f'paxbody {hx(body)}')
-            if body and rng.random() < 0.5:       # malformed: cut, digit changed, newline replaced
-                m = bytearray(body)
-                how = rng.choice(['cut', 'len+1', 'nonl', 'noeq'])
-                if how == 'cut':
-                    m = m[:rng.randrange(1, len(m))]
-                elif how == 'len+1':
-                    m[0] = 48 + (m[0] - 48 + 1) % 10
-                elif how == 'nonl':
-                    m[-1] = 32
-                else:
-                    m = bytearray(m.replace(b'=', b':', 1))
-                ops.append(f'paxbody {hx(bytes(m))}')
+            if body:
+                for how in ('cut', 'len+1', 'nonl', 'noeq'):
+                    m = bytearray(body)
+                    if how == 'cut':
+                        m = m[:rng.randrange(1, len(m))]
+                    elif how == 'len+1':
+                        m[0] = 48 + (m[0] - 48 + 1) % 10
+                    elif how == 'nonl':
+                        m[-1] = 32
+                    else:
+                        m = bytearray(m.replace(b'=', b':', 1))
+                    ops.append(f'paxbody {hx(bytes(m))}')
         yield Case(f'paxbody-{r}', ops)
 
 
@@ -283,8 +286,8 @@ def needs_bilb1(fmt):
 def gen_c10_cases(rng, tier):
     for fmt in ALL_FMTS * (1 if tier == 'quick' else 3):       # thorough: three rounds with fresh neighbours / block sizes
         probes = c10_probes(rng, fmt)
-        if tier == 'quick' and fmt not in BYTE_FMTS + AR_FMTS:
-            probes = [p for p in probes if rng.random() < 0.3]
+        if tier == 'quick' and fmt not in BYTE_FMTS:
+            probes = [p for p in probes if rng.random() < (0.6 if fmt in AR_FMTS else 0.3)]
         for lbl, d, big in probes:
             a, b = good_entry(rng, fmt, 0), good_entry(rng, fmt, 2)
             if big and fmt in SPOOLING:
